@@ -47,7 +47,7 @@ Step(ev) ==
      [] ev.e = "Read"  -> Read(ev.k) /\
            JudgeEv(ev, [ret |-> ret'[2], data |-> ret'[3]] @@
                        (IF kind' = "c" THEN [dgl |-> GuardD, dgr |-> GuardD,
-                                            drest |-> [i \in 1..(ev.k - ret'[2]) |-> 90]] ELSE <<>>))
+                                            drest |-> [i \in 1..(ev.kb - ret'[2]) |-> 90]] ELSE <<>>))
      [] ev.e = "MoveHead" -> MoveHead(ev.s) /\ JudgeEv(ev, [ret |-> ret'[2]])
      [] ev.e = "MoveTail" -> MoveTail(ev.k) /\ JudgeEv(ev, [ret |-> ret'[2], data |-> ret'[3]])
      [] ev.e = "Clean" -> Clean /\ JudgeEv(ev, <<>>)
